@@ -45,6 +45,24 @@ fn compress_request(fp: &FriProof<F, H, 2>, idx: &[usize], params: &plonky2::fri
     format!("c16 compress {}", t.line())
 }
 
+/// `<common> <verifier-only> <compressed proof with pis>` — the input of `c16 decompress` / `c16 vcompressed`
+fn compressed_request(op: &str, data: &plonky2::plonk::circuit_data::CircuitData<F, C, 2>, cp: &plonky2::plonk::proof::CompressedProofWithPublicInputs<F, C, 2>) -> String {
+    let mut t = Toks::default();
+    t.common(&data.common);
+    t.verifier_only(&data.verifier_only);
+    t.compressed_proof_with_pis(cp);
+    format!("c16 {op} {}", t.line())
+}
+
+/// the real `CompressedProofWithPublicInputs::decompress`, its FRI proof as `Toks::fri_proof`
+/// (a panic is caught by `Emitter::case` and reported as `PANIC`)
+fn real_decompress(data: &plonky2::plonk::circuit_data::CircuitData<F, C, 2>, cp: &plonky2::plonk::proof::CompressedProofWithPublicInputs<F, C, 2>) -> String {
+    match data.decompress(cp.clone()) {
+        Ok(p) => { let mut t = Toks::default(); t.fri_proof(&p.proof.opening_proof); t.line() }
+        Err(er) => format!("ERR {er}"),
+    }
+}
+
 pub fn emit(e: &mut Emitter, seed: u64, thorough: bool) {
     let mut r = Rng::new(seed ^ 0x16);
     let n_circuits = if thorough { 40 } else { 10 };
@@ -124,6 +142,76 @@ pub fn emit(e: &mut Emitter, seed: u64, thorough: bool) {
                 // (2) the model of FriProof::compress on the same proof and indices
                 let cfp = cp.proof.opening_proof.clone();
                 e.case("fri-proof-compress", compress_request(&proof.proof.opening_proof, &idx, params), || show_compressed(&cfp));
+                // (2b) ProofWithPublicInputs::compress with the query indices recomputed from the transcript
+                {
+                    let mut t = Toks::default();
+                    t.common(&data.common);
+                    t.verifier_only(&data.verifier_only);
+                    t.proof_with_pis(&proof);
+                    e.case("plonk-proof-compress", format!("c16 pcompress {}", t.line()), || show_compressed(&cfp));
+                }
+                // (2c) the model of CompressedProofWithPublicInputs::decompress (get_challenges on the
+                //      compressed form, get_inferred_elements, CompressedFriProof::decompress) against the
+                //      real one, and of ::verify against verify_compressed
+                e.case("plonk-proof-decompress", compressed_request("decompress", &data, &cp), || real_decompress(&data, &cp));
+                e.case("verify-compressed", compressed_request("vcompressed", &data, &cp), || plonk_verdict(data.verify_compressed(cp.clone())));
+                // (2d) edited compressed proofs: a map entry removed (the real code panics, F-C18-2; the
+                //      model must report the panic too), a stored coset evaluation or leaf changed (no
+                //      panic: both sides must rebuild the same proof, with the inferred elements of the
+                //      later layers following the edit, and give the same verdict)
+                for _ in 0..(if thorough { 6 } else { 3 }) {
+                    let mut bad = cp.clone();
+                    let kind = r.below(5);
+                    let class = {
+                        let rounds = &mut bad.proof.opening_proof.query_round_proofs;
+                        let nsteps = rounds.steps.len();
+                        match kind {
+                            0 => {
+                                let mut ks: Vec<usize> = rounds.initial_trees_proofs.keys().copied().collect();
+                                ks.sort();
+                                let k = *r.pick(&ks);
+                                rounds.initial_trees_proofs.remove(&k);
+                                "initial-entry-removed"
+                            }
+                            1 if nsteps > 0 => {
+                                let j = r.below(nsteps as u64) as usize;
+                                let mut ks: Vec<usize> = rounds.steps[j].keys().copied().collect();
+                                ks.sort();
+                                let k = *r.pick(&ks);
+                                rounds.steps[j].remove(&k);
+                                "step-entry-removed"
+                            }
+                            2 if nsteps > 0 => {
+                                let j = r.below(nsteps as u64) as usize;
+                                let mut ks: Vec<usize> = rounds.steps[j].keys().copied().collect();
+                                ks.sort();
+                                let k = *r.pick(&ks);
+                                let st = rounds.steps[j].get_mut(&k).unwrap();
+                                let n = st.evals.len();
+                                st.evals[r.below(n as u64) as usize] += FE::ONE;
+                                "step-eval-changed"
+                            }
+                            3 => {
+                                let mut ks: Vec<usize> = rounds.initial_trees_proofs.keys().copied().collect();
+                                ks.sort();
+                                let k = *r.pick(&ks);
+                                let ent = rounds.initial_trees_proofs.get_mut(&k).unwrap();
+                                let t = r.below(ent.evals_proofs.len() as u64) as usize;
+                                let n = ent.evals_proofs[t].0.len();
+                                ent.evals_proofs[t].0[r.below(n as u64) as usize] += F::ONE;
+                                "initial-leaf-changed"
+                            }
+                            _ => {
+                                // the recorded index list is not what decompress iterates over (it uses
+                                // the Fiat–Shamir indices): dropping it changes nothing
+                                rounds.indices.clear();
+                                "indices-field-cleared"
+                            }
+                        }
+                    };
+                    e.case(&format!("edited-compressed-decompress: {class}"), compressed_request("decompress", &data, &bad), || real_decompress(&data, &bad));
+                    e.case(&format!("edited-compressed-verify: {class}"), compressed_request("vcompressed", &data, &bad), || plonk_verdict(data.verify_compressed(bad.clone())));
+                }
             }
             Ok(Err(er)) => e.oracle_failures.push(format!("compress failed: {er}")),
             Err(_) => e.oracle_failures.push(format!("compress panicked on an accepted proof ({class})")),
